@@ -24,14 +24,21 @@ type verifRecQ struct {
 	Name string  `parquet:"name,plain"`
 	Blob []byte  `parquet:"blob,plain"`
 	Tags []int32 `parquet:"tags"`
+	Amt  []byte  `parquet:"amt,decimal(6:38)"` // FIXED_LEN_BYTE_ARRAY(16) read into a byte slice
+}
+
+func verifAmt(b byte) []byte {
+	a := make([]byte, 16)
+	a[0], a[15] = b, b
+	return a
 }
 
 func verifRowsQ() []verifRecQ {
 	return []verifRecQ{
-		{ID: 1, Name: "first-" + vString("n0", 1), Blob: []byte{1, 2, 3, vU8("b0")}, Tags: []int32{1, 2}},
-		{ID: 2, Name: "second", Blob: []byte{9, 9, 9, 9}, Tags: []int32{3}},
-		{ID: 3, Name: "third!", Blob: []byte{7, 7, 7, 7}, Tags: nil},
-		{ID: 4, Name: "fourth", Blob: []byte{5, 5, 5, 5}, Tags: []int32{4, 5, 6}},
+		{ID: 1, Name: "first-" + vString("n0", 1), Blob: []byte{1, 2, 3, vU8("b0")}, Tags: []int32{1, 2}, Amt: verifAmt(1)},
+		{ID: 2, Name: "second", Blob: []byte{9, 9, 9, 9}, Tags: []int32{3}, Amt: verifAmt(2)},
+		{ID: 3, Name: "third!", Blob: []byte{7, 7, 7, 7}, Tags: nil, Amt: verifAmt(3)},
+		{ID: 4, Name: "fourth", Blob: []byte{5, 5, 5, 5}, Tags: []int32{4, 5, 6}, Amt: verifAmt(4)},
 	}
 }
 
@@ -51,7 +58,7 @@ func verifFileQ(rows []verifRecQ) (*File, bool) {
 }
 
 func verifSameQ(a, b *verifRecQ) bool {
-	if a.ID != b.ID || len(a.Tags) != len(b.Tags) || len(a.Blob) != len(b.Blob) {
+	if a.ID != b.ID || len(a.Tags) != len(b.Tags) || len(a.Blob) != len(b.Blob) || !bytes.Equal(a.Amt, b.Amt) {
 		return false
 	}
 	for i := range a.Tags {
@@ -64,7 +71,7 @@ func verifSameQ(a, b *verifRecQ) bool {
 
 // verifChurn: unrelated library activity that takes and returns pooled buffers
 func verifChurn() {
-	other := []verifRecQ{{ID: 77, Name: "XXXXXXX", Blob: []byte{0xEE, 0xEE, 0xEE, 0xEE, 0xEE}, Tags: []int32{-1, -1, -1}}, {ID: 78, Name: "YYYYYYY", Blob: []byte{0xDD, 0xDD, 0xDD, 0xDD}}}
+	other := []verifRecQ{{ID: 77, Name: "XXXXXXX", Blob: []byte{0xEE, 0xEE, 0xEE, 0xEE, 0xEE}, Tags: []int32{-1, -1, -1}, Amt: verifAmt(0xEE)}, {ID: 78, Name: "YYYYYYY", Blob: []byte{0xDD, 0xDD, 0xDD, 0xDD}, Amt: verifAmt(0xDD)}}
 	f, ok := verifFileQ(other)
 	if !ok {
 		return
